@@ -296,7 +296,8 @@ def send(method, url, body=None, ctype=None, project='P1', admin=False):
     h = headers(project, admin)
     del SQL_LOG[:]
     n_msgs = len(env.W.msg_log)
-    kw = {'headers': h, 'expect_errors': True}
+    kw = {'headers': h, 'expect_errors': True,
+          'extra_environ': {'openstack.request_id': 'req-c16'}}
     if method in ('POST', 'PUT'):
         if ctype == 'text':
             h['Content-Type'] = 'text/plain'
